@@ -28,19 +28,18 @@ def pScan (p : UInt8 → Bool) (buf : Bytes) (i : Nat) : Option Nat :=
 termination_by buf.length + 1 - i
 decreasing_by have := rd_some_le h; omega
 
-/-- the loop `while (*s != quote) ++s; return ++s;` of SkipToMatchingQuote, started at `j` -/
-def pFind (q : UInt8) (buf : Bytes) (j : Nat) : Option Nat :=
-  match h : rd buf j with
-  | none => none
-  | some c => if c != q then pFind q buf (j + 1) else some (j + 1)
-termination_by buf.length + 1 - j
-decreasing_by have := rd_some_le h; omega
-
-/-- `SkipToMatchingQuote(s)` with `s = buf + i` -/
+/-- `SkipToMatchingQuote(s)` with `s = buf + i` (ampl/mp 7d345ba):
+`quote = *s; ++s; while (*s && *s != quote) ++s; return s;` -/
 def pSkipToMatchingQuote (buf : Bytes) (i : Nat) : Option Nat :=
   match rd buf i with
   | none => none
-  | some q => pFind q buf (i + 1)
+  | some q => pScan (fun c => c != q) buf (i + 1)
+
+/-- the tail of `OptionHelper<std::string>::Parse` for a quoted value: `if (*s) ++s;` -/
+def pAfterQuote (buf : Bytes) (j : Nat) : Option Nat :=
+  match rd buf j with
+  | none => none
+  | some c => if c != 0 then some (j + 1) else some j
 
 def NoNul (buf : Bytes) : Prop := ∀ c ∈ buf, c ≠ 0
 
@@ -87,43 +86,37 @@ theorem pScan_spec (p : UInt8 → Bool) (buf : Bytes) (hn : NoNul buf) (i : Nat)
         simp only [bne_self_eq_false, Bool.false_and, Bool.false_eq_true, if_false]
         exact ⟨buf.length, rfl, Nat.le_refl _, Nat.le_refl _, by simp⟩
 
-/-- The quote scanner stays in bounds **iff** the closing quote exists: it reads beyond the NUL
-exactly when `findByte` finds no closing quote (and then it agrees with the list model). -/
-theorem pFind_spec (q : UInt8) (hq : q ≠ 0) (buf : Bytes) (j : Nat) (hj : j ≤ buf.length) :
-    pFind q buf j = (findByte q (buf.drop j)).map (fun k => j + k + 1) := by
-  induction hk : buf.length - j using Nat.strongRecOn generalizing j with
-  | _ k ih =>
-    rw [pFind]
-    by_cases hlt : j < buf.length
-    · have hr := rd_lt hlt
-      have hdrop : buf.drop j = buf[j] :: buf.drop (j + 1) := List.drop_eq_getElem_cons hlt
-      split
-      · rename_i h; rw [hr] at h; cases h
-      · rename_i c h
-        rw [hr] at h
-        cases h
-        rw [hdrop, findByte]
-        by_cases hc : buf[j] = q
-        · simp [hc]
-        · have : (buf[j] != q) = true := by simpa using hc
-          have hb : (buf[j] == q) = false := by simpa using hc
-          simp only [this, if_true, hb, Bool.false_eq_true, if_false]
-          rw [ih (buf.length - (j + 1)) (by omega) (j + 1) (by omega) rfl]
-          cases findByte q (buf.drop (j + 1)) with
-          | none => rfl
-          | some k => simp; omega
-    · have hje : j = buf.length := by omega
-      subst hje
-      split
-      · rename_i h; rw [rd_end] at h; cases h
-      · rename_i c h
-        rw [rd_end] at h
-        cases h
-        have : ((0 : UInt8) != q) = true := by simpa using hq.symm
-        simp only [this, if_true]
-        rw [pFind]
-        split
-        · simp [findByte]
-        · rename_i c h; rw [rd_beyond (by omega)] at h; cases h
+/-- `SkipToMatchingQuote` + the closing-quote skip, started at a quote inside the string: all
+reads are at indices ≤ the NUL index, and the result is the list model's. -/
+theorem pSkipToMatchingQuote_spec (buf : Bytes) (hn : NoNul buf) (i : Nat) (hi : i < buf.length) :
+    ∃ j k, pSkipToMatchingQuote buf i = some j ∧ j ≤ buf.length ∧ pAfterQuote buf j = some k ∧ k ≤ buf.length ∧
+      (buf.drop (i + 1)).take (j - (i + 1)) = (skipToMatchingQuote buf[i] (buf.drop (i + 1))).1 ∧
+      buf.drop k = (skipToMatchingQuote buf[i] (buf.drop (i + 1))).2 := by
+  obtain ⟨j, h1, h2, h3, h4⟩ := pScan_spec (fun c => c != buf[i]) buf hn (i + 1) (by omega)
+  have hval : (buf.drop (i + 1)).take (j - (i + 1)) = (buf.drop (i + 1)).takeWhile (fun c => c != buf[i]) := by
+    have hlen : ((buf.drop (i + 1)).dropWhile (fun c => c != buf[i])).length = buf.length - j := by
+      rw [← h4]; simp
+    have hsplit := List.takeWhile_append_dropWhile (p := fun c => c != buf[i]) (l := buf.drop (i + 1))
+    have hl : ((buf.drop (i + 1)).takeWhile (fun c => c != buf[i])).length = j - (i + 1) := by
+      have := congrArg List.length hsplit
+      simp only [List.length_append, List.length_drop, hlen] at this
+      omega
+    conv => lhs; rw [← hsplit]
+    rw [← hl, List.take_left']
+    rfl
+  by_cases hj : j < buf.length
+  · have hd : buf.drop j = buf[j] :: buf.drop (j + 1) := List.drop_eq_getElem_cons hj
+    have hc0 : buf[j] ≠ 0 := hn _ (List.getElem_mem hj)
+    refine ⟨j, j + 1, ?_, h3, ?_, by omega, ?_, ?_⟩
+    · simp [pSkipToMatchingQuote, rd_lt hi, h1]
+    · simp [pAfterQuote, rd_lt hj, hc0]
+    · simpa [skipToMatchingQuote] using hval
+    · simp only [skipToMatchingQuote]; rw [← h4, hd]; rfl
+  · have hje : j = buf.length := by omega
+    refine ⟨j, j, ?_, h3, ?_, h3, ?_, ?_⟩
+    · simp [pSkipToMatchingQuote, rd_lt hi, h1]
+    · subst hje; simp [pAfterQuote, rd_end]
+    · simpa [skipToMatchingQuote] using hval
+    · simp only [skipToMatchingQuote]; rw [← h4]; subst hje; simp
 
 end MpVerif.C11
